@@ -93,17 +93,50 @@ def clear_caches():
     return ok
 
 
-CHILD_TIMEOUT = int(os.environ.get('C10_CHILD_TIMEOUT', '30'))      # seconds of wall time per forked evaluation
+# Limits of one forked evaluation: CPU time (what a library that no longer terminates burns; immune to machine load)
+# and a very generous wall-clock backstop for waits that burn no CPU.
+CHILD_CPU = int(os.environ.get('C10_CHILD_CPU', '60'))
+CHILD_TIMEOUT = int(os.environ.get('C10_CHILD_TIMEOUT', '900'))
 
 
-def in_child(fn, *args):
+def leash(cpu=None, parent=None):
+    """Tie this process to its parent and bound what it may burn: the kernel kills it when the parent dies
+    (PR_SET_PDEATHSIG) and when it has used `cpu` seconds of CPU time (RLIMIT_CPU: SIGXCPU at the soft limit, SIGKILL
+    5 s later).  A library call that never returns can then neither hang the check nor outlive it as an orphan.
+    `parent`: the pid that must still be the parent (closes the window between fork and prctl)."""
+    try:
+        import ctypes
+        import signal
+        ctypes.CDLL('libc.so.6', use_errno=True).prctl(1, signal.SIGKILL)      # PR_SET_PDEATHSIG
+        if parent is not None and os.getppid() != parent:
+            os._exit(1)
+    except Exception:  # noqa
+        pass
+    if cpu:
+        try:
+            import resource
+            soft, hard = resource.getrlimit(resource.RLIMIT_CPU)
+            lim = cpu + 5 if hard == resource.RLIM_INFINITY else min(cpu + 5, hard)
+            resource.setrlimit(resource.RLIMIT_CPU, (min(cpu, lim), lim))
+        except Exception:  # noqa
+            pass
+
+
+class ChildDied(RuntimeError):
+    """the forked evaluation was killed (time limit) or ended without a result"""
+
+
+def in_child(fn, *args, cpu=None):
     """Run fn(*args) in a forked child (pristine copy of this process), return its result."""
+    cpu = cpu or CHILD_CPU
     r, w = os.pipe()
+    me = os.getpid()
     pid = os.fork()
     if pid == 0:
         code = 0
         try:
             os.close(r)
+            leash(cpu, me)
             # a library that no longer terminates on this input (e.g. two queues sharing their bookkeeping) must
             # not hang the check: SIGALRM's default action ends the child, the parent reports the timeout
             import signal
@@ -124,9 +157,12 @@ def in_child(fn, *args):
         data = f.read()
     _, status = os.waitpid(pid, 0)
     if not data:
-        why = (f'did not finish within {CHILD_TIMEOUT} s (killed)' if os.WIFSIGNALED(status)
-               and os.WTERMSIG(status) == 14 else f'ended without a result (wait status {status})')
-        raise RuntimeError(f'child {why}')
+        import signal
+        sig = os.WTERMSIG(status) if os.WIFSIGNALED(status) else 0
+        why = (f'did not finish within {CHILD_TIMEOUT} s of wall time (killed)' if sig == signal.SIGALRM else
+               f'did not finish within {cpu} CPU-s (killed): the library hangs on this input'
+               if sig in (signal.SIGXCPU, signal.SIGKILL) else f'ended without a result (wait status {status})')
+        raise ChildDied(f'child {why}')
     kind, val = pickle.loads(data)
     if kind == 'err':
         raise RuntimeError('child failed: ' + val)
@@ -414,6 +450,8 @@ def invoke(kd, w):
             return stim.load_wav(fs, path, None, None, normalization=norm)
         if form == 'short':    # all defaults (normalization=None)
             return stim.load_wav(fs, path)
+        if form == 'dflt':     # the same, the reference with the documented defaults spelled out
+            return stim.load_wav(fs, path) if kd.get('omit') else stim.load_wav(fs, path, None, None, None)
         if form == 'kwnorm':
             return stim.load_wav(fs, path, normalization=norm)
         if form == 'posnorm':
@@ -435,6 +473,38 @@ PLAIN = ('tone', 'sam_tone', 'square_wave', 'broadband_noise', 'notch_noise', 'b
 def invoke_plain(stim, name, form, a, fs, w, kd):
     """The function forms of the stimuli: results must depend on the arguments only as well."""
     kwf = form == 'kw'
+    if form == 'dflt':
+        # HARDENING item 9: every optional argument left out (`omit`, the call of the history) must give what the
+        # documented defaults spelled out give (the reference: `_bare` drops `omit`)
+        short = bool(kd.get('omit'))
+        if name == 'tone':
+            return stim.tone(fs, a['f'], a['level'], duration=a['dur']) if short else \
+                stim.tone(fs, a['f'], a['level'], 0, 1, None, 'auto', 0, a['dur'])
+        if name == 'sam_tone':
+            return stim.sam_tone(fs, a['fc'], a['fm'], a['level'], duration=a['dur']) if short else \
+                stim.sam_tone(fs, a['fc'], a['fm'], a['level'], 1, 0, 0, 0, 1, None, 'auto', 0, a['dur'], True, True)
+        if name == 'square_wave':
+            return stim.square_wave(fs, a['offset'], a['samples'], a['depth'], a['fm'], a['duty']) if short else \
+                stim.square_wave(fs, a['offset'], a['samples'], a['depth'], a['fm'], a['duty'], 0)
+        if name == 'broadband_noise':
+            return stim.broadband_noise(fs, a['level'], a['dur']) if short else \
+                stim.broadband_noise(fs, a['level'], a['dur'], 1, False, 1, None)
+        if name == 'notch_noise':
+            return stim.notch_noise(fs, a['f'], 1.33, a['level'], a['dur']) if short else \
+                stim.notch_noise(fs, a['f'], 1.33, a['level'], a['dur'], 1, False, 1, None)
+        if name == 'bandlimited_noise':
+            return stim.bandlimited_noise(fs, a['level'], a['fl'], a['fh'], a['dur']) if short else \
+                stim.bandlimited_noise(fs, a['level'], a['fl'], a['fh'], a['dur'], 1, 1, 80, False, 1, 1, None)
+        if name == 'chirp':
+            return stim.chirp(fs, a['f0'], a['f1'], a['dur'], a['level']) if short else \
+                stim.chirp(fs, a['f0'], a['f1'], a['dur'], a['level'], None, 'boxcar', False, np.inf, None)
+        if name == 'bandlimited_click':
+            return stim.bandlimited_click(fs, a['flb'], a['fub']) if short else \
+                stim.bandlimited_click(fs, a['flb'], a['fub'], 0.1, 1, 'rms', None, False, np.inf, None)
+        if name == 'ramped_tone':
+            return stim.ramped_tone(fs, a['f'], a['level'], a['dur']) if short else \
+                stim.ramped_tone(fs, a['f'], a['level'], a['dur'], None, 'cosine-squared', 0, None)
+        raise ValueError(f'no default form of {name}')
     if name == 'tone':
         if kwf:
             return stim.tone(fs=fs, frequency=a['f'], level=a['level'], phase=a['phase'], polarity=a['pol'],
@@ -668,6 +738,14 @@ class BuildFailed(Exception):
     pass
 
 
+# Exception classes with which Python reports a programming error, as opposed to the library refusing a request
+# (ValueError, ZeroDivisionError, NotImplementedError ...): a well-formed history that ends in one of them has no
+# stream at all, whatever a second object built alike does.
+CRASHES = {'AttributeError', 'NameError', 'UnboundLocalError', 'KeyError', 'IndexError', 'TypeError', 'AssertionError',
+           'RecursionError', 'SystemError', 'build:AttributeError', 'build:NameError', 'build:UnboundLocalError',
+           'build:KeyError', 'build:IndexError', 'build:TypeError', 'build:AssertionError', 'build:RecursionError'}
+
+
 class Broken:
     """Stands for a factory whose constructor raised: every draw reports that exception."""
 
@@ -781,19 +859,32 @@ def clean_ref(kind, case, v):
     if _ZYG is None or _ZYG[0] != os.getpid() or _ZYG[1].poll() is not None:
         env = dict(os.environ)
         env['PYTHONPATH'] = VERIF_DIR + os.pathsep + env.get('PYTHONPATH', '')
+        me = os.getpid()
         z = subprocess.Popen([sys.executable, '-m', 'harness.c10_zygote'], stdin=subprocess.PIPE,
-                             stdout=subprocess.PIPE, cwd=VERIF_DIR, env=env)
+                             stdout=subprocess.PIPE, cwd=VERIF_DIR, env=env, preexec_fn=lambda: leash(None, me))
         _ZYG = (os.getpid(), z)
         atexit.register(lambda z=z: (z.stdin.close(), z.wait(timeout=5)) if z.poll() is None else None)
     z = _ZYG[1]
-    data = pickle.dumps((kind, case, v))
+    data = pickle.dumps((kind, case, v, child_cpu()))
     z.stdin.write(struct.pack('<I', len(data)) + data)
     z.stdin.flush()
     (n,) = struct.unpack('<I', z.stdout.read(4))
     st, val = pickle.loads(z.stdout.read(n))
     if st != 'ok':
-        raise RuntimeError('reference evaluation failed: ' + val)
+        if 'CPU-s (killed)' in val:
+            from . import framework
+            framework._note_timeout()
+        raise RuntimeError('evaluation in a pristine interpreter failed: ' + val)
     return val
+
+
+def child_cpu():
+    """CPU seconds one forked evaluation may burn: once two evaluations of this run have hit the limit the library is
+    known to hang (already a violation) and the remaining ones get a short leash (the framework's shared counter)."""
+    from . import framework
+    t = getattr(framework, '_TIMEOUTS', None)
+    n = t.value if t is not None else 0
+    return CHILD_CPU if n < 2 else 5 if n < 8 else 2
 
 
 _KREF = {}
@@ -920,6 +1011,9 @@ def run_history(case):
         if isinstance(r, str):
             out.append(r)
             continue
+        if r[1][0] == 'exc' and r[1][1] in CRASHES and want[k][0] == 'g':
+            out.append(f'op raised {r[1][1]}')
+            continue
         v = want[k]
         if v[0] == 'g':     # lineage before this chunk + this chunk
             name = g_name(('g', v[1], v[2][:-1])) + f'+{v[2][-1]}'
@@ -1002,24 +1096,26 @@ def play(case, bad, kref):
         elif o == 'new':
             objs.append(build_or_broken(case['specs'][op[1]], w))
             out.append(f'o{len(objs) - 1}')
-        elif o == 'qnew':
-            objs.append(make_queue(op[1], op[2]))
-            out.append(f'o{len(objs) - 1}')
-        elif o == 'reset':
-            objs[op[1]].reset()
-            out.append('ok')
-        elif o == 'copy':
-            objs.append(copy.deepcopy(objs[op[1]]))
-            out.append(f'o{len(objs) - 1}')
-        elif o == 'clone':
-            objs.append(objs[op[1]].clone())
-            out.append(f'o{len(objs) - 1}')
-        elif o == 'append':
-            do_append(objs[op[1]], objs[op[2]], op[3], op[4], tuple(op[5:]))
-            out.append('ok')
-        elif o == 'appendw':
-            do_append(objs[op[1]], w.arrays[op[2]], op[3], op[4], tuple(op[5:]))
-            out.append('ok')
+        elif o in ('qnew', 'copy', 'clone'):
+            # (an exception the library raises here is reported on this line; a placeholder keeps the numbering)
+            try:
+                objs.append(make_queue(op[1], op[2]) if o == 'qnew' else
+                            copy.deepcopy(objs[op[1]]) if o == 'copy' else objs[op[1]].clone())
+                out.append(f'o{len(objs) - 1}')
+            except Exception as e:  # noqa
+                objs.append(Broken(e))
+                out.append(f'o{len(objs) - 1} RAISED {type(e).__name__}: {str(e)[:80]}')
+        elif o in ('reset', 'append', 'appendw'):
+            try:
+                if o == 'reset':
+                    objs[op[1]].reset()
+                elif o == 'append':
+                    do_append(objs[op[1]], objs[op[2]], op[3], op[4], tuple(op[5:]))
+                else:
+                    do_append(objs[op[1]], w.arrays[op[2]], op[3], op[4], tuple(op[5:]))
+                out.append('ok')
+            except Exception as e:  # noqa
+                out.append(f'ok RAISED {type(e).__name__}: {str(e)[:80]}')
         elif o in ('next', 'pop'):
             try:
                 if o == 'next':     # a NumPy integer is the same request
@@ -1279,7 +1375,9 @@ def random_key_of(rng):
                 'a': {'fl': rng.choice([100.0, 120.0]), 'fh': 200.0, 'cal': rng.choice([0, 1])}}
     if fn == 'load_wav':
         a = {'file': rng.choice(['a16.wav', 'b16.wav', 'c32.wav']), 'norm': rng.choice(['pe', None, 'rms'])}
-        form = rng.choice(['factory', 'factory', 'kwnorm', 'posnorm', 'path', 'allkw', 'short'])
+        form = rng.choice(['factory', 'factory', 'kwnorm', 'posnorm', 'path', 'allkw', 'short', 'dflt'])
+        if form == 'dflt':
+            return {'fn': fn, 'form': form, 'a': dict(a, norm=None), 'omit': True}
         if form == 'short':
             a['norm'] = None
         elif form == 'factory' and a['norm'] is not None and rng.random() < 0.5:
@@ -1308,7 +1406,13 @@ def plain_key(rng, name=None):
               'ramped_tone': {'f': 100.0, 'rise': rng.choice([0.004, 0.005, None]), 'phase': rng.choice([0, 0.3]),
                               'window': rng.choice(['cosine-squared', 'hann'])},
               'cos2ramp': {}}[name])
+    if name in DFLT_PLAIN and rng.random() < 0.35:
+        return {'fn': 'f:' + name, 'form': 'dflt', 'a': a, 'omit': True}
     return {'fn': 'f:' + name, 'form': rng.choice(['pos', 'kw']), 'a': a}
+
+
+DFLT_PLAIN = ('tone', 'sam_tone', 'square_wave', 'broadband_noise', 'notch_noise', 'bandlimited_noise', 'chirp',
+              'bandlimited_click', 'ramped_tone')
 
 
 _KPERT = {'dur': lambda v, r: 0.02 if v != 0.02 else 0.016, 'rise': lambda v, r: 0.003, 'offset': lambda v, r: v + 1,
@@ -1329,7 +1433,7 @@ def sibling_key(rng, kd):
     """The same call with exactly one argument changed (a memo key that is too coarse conflates the two)."""
     a = kd['a']
     sites = [k for k in a if k in _KPERT and a[k] is not None and not isinstance(a[k], list)]
-    if kd['fn'] == 'load_wav' and kd['form'] == 'short':
+    if kd['fn'] == 'load_wav' and kd['form'] in ('short', 'dflt'):
         sites = ['file']
     if kd['fn'] == 'load_wav' and kd['form'] == 'factory' and a['norm'] is not None and 'level' not in a \
             and rng.random() < 0.5:
@@ -1346,6 +1450,36 @@ def sibling_key(rng, kd):
 
 
 _LENS = {}
+_LENS_HANGS = [0]
+
+
+class _Stuck(BaseException):
+    """raised by cpu_limit (a BaseException: `except Exception` inside the library lets it through)"""
+
+
+class cpu_limit:
+    """with cpu_limit(s): ... raises _Stuck once the block has burnt s CPU seconds (ITIMER_PROF; main thread only;
+    the timer and handler that were running -- the framework's generation watchdog -- are put back afterwards)"""
+
+    def __init__(self, seconds):
+        self.seconds = seconds
+
+    @staticmethod
+    def _raise(signum, frame):
+        raise _Stuck()
+
+    def __enter__(self):
+        import signal
+        self.handler = signal.signal(signal.SIGPROF, self._raise)
+        self.timer = signal.setitimer(signal.ITIMER_PROF, self.seconds, 1)
+
+    def __exit__(self, *a):
+        import signal
+        signal.setitimer(signal.ITIMER_PROF, 0)
+        signal.signal(signal.SIGPROF, self.handler)
+        if self.timer[0] > 0:
+            signal.setitimer(signal.ITIMER_PROF, *self.timer)
+        return False
 
 
 def key_lens(kd):
@@ -1355,7 +1489,16 @@ def key_lens(kd):
         def f():
             w = World({'arrays': []})
             return [int(a.size) for a in comps(invoke(kd, w))]
-        _LENS[c] = pristine(f)
+        _stim()             # (imported outside the limited block: an interrupted import leaves a broken module behind)
+        World({'arrays': []})
+        try:
+            with cpu_limit(20 if _LENS_HANGS[0] < 3 else 0.3):
+                _LENS[c] = pristine(f)
+        except Exception:  # noqa  (the call itself fails: the history that contains it reports that, with a replay)
+            return []
+        except _Stuck:     # (the call never returns: likewise -- the history runs under a CPU limit of its own)
+            _LENS_HANGS[0] += 1
+            _LENS[c] = []
     return _LENS[c]
 
 
@@ -1364,7 +1507,7 @@ def close_keys(kds):
     seen, out = {}, []
 
     def add(kd):
-        kd = {k: kd[k] for k in ('fn', 'form', 'a', 'rep') if k in kd and (k != 'rep' or kd[k])}
+        kd = {k: kd[k] for k in ('fn', 'form', 'a', 'rep', 'omit') if k in kd and (k != 'rep' or kd[k])}
         c = canon(kd)
         if c in seen:
             return seen[c]
@@ -1746,6 +1889,60 @@ def gen_hist_case(rng):
     return c
 
 
+RESET_LEAVES = ['bbn', 'bln', 'blneq', 'fir', 'shaped', 'tone', 'samtone', 'square', 'fixed', 'chirp', 'click', 'blclick',
+                'wav', 'silence']
+RESET_WRAPS = [None, 'notch', 'gate', 'env', 'cos2', 'sam', 'sqenv', 'repeat']
+
+
+def gen_reset_case(rng, k):
+    """reset() must bring back the stream of a fresh object: every leaf kind in turn (k), bare or under every kind of
+    wrapper, options at random; drawn partially / to completion and beyond / not at all, reset, drawn again; a copy
+    taken before the reset keeps the old position; a second reset changes nothing."""
+    b = Builder(rng, 'gen-reset')
+    c = b.case
+    c['arrays'] = random_arrays(rng, 1, tiny=rng.random() < 0.2)
+    c['adtypes'] = random_dtypes(rng, 1)
+    s = leaf_spec_of(rng, RESET_LEAVES[k % len(RESET_LEAVES)], 1)
+    wrap = RESET_WRAPS[(k // len(RESET_LEAVES)) % len(RESET_WRAPS)]
+    if wrap == 'repeat':
+        s = {'t': 'repeat', 'n': 2, 'skip': rng.choice([0, 1]), 'rate': 40.0, 'delay': rng.choice([0.0, 0.002]),
+             'in': {'t': 'cos2', 'dur': 0.012, 'rise': 0.004, 'start': 0, 'in': s}}
+    elif wrap is not None:
+        for _ in range(50):
+            w = wrap_spec(rng, s)
+            if w['t'] == wrap:
+                s = w
+                break
+    c['specs'] = [set_rep(s, rng.choice(REPS))]
+    o = b.new(0)
+    end = rng.choice([12, 20, 30, 40, 64])      # at or beyond the end of every finite stimulus generated here
+    first = rng.choice(['none', 'part', 'part', 'parts', 'end', 'beyond'])
+    if first == 'part':
+        b.next(o, chunk(rng))
+    elif first == 'parts':
+        for _ in range(rng.randint(2, 4)):
+            b.next(o, chunk(rng))
+    elif first == 'end':
+        b.next(o, end)
+    elif first == 'beyond':
+        b.next(o, end)
+        b.next(o, rng.choice([1, 5, 30]))
+    o2 = b.copy(o) if rng.random() < 0.3 else None
+    if rng.random() < 0.3:
+        b.noise()
+    b.op('reset', o)
+    if rng.random() < 0.25:
+        b.op('reset', o)
+    for _ in range(rng.randint(1, 3)):
+        b.next(o, chunk(rng))
+    if o2 is not None:
+        b.next(o2, chunk(rng))
+    if rng.random() < 0.5:      # and once more, now from wherever it stands
+        b.op('reset', o)
+        b.next(o, rng.choice([end, chunk(rng)]))
+    return c
+
+
 SCALE_KINDS = ['bbn', 'bln', 'fir', 'shaped', 'blneq', 'tone', 'square', 'samtone']
 
 
@@ -2001,7 +2198,8 @@ class C10(Spec):
             'and 1-sample arrays, the plain function forms of the stimuli, calls and generators that differ in one '
             'argument (incl. the calibration object or a callable), grouped and keep_complete_waveforms=False '
             'queues, extend / keyword / metadata / iterator-delay spellings of append, pop_buffer(decrement=False), '
-            'reset before/twice/after completion, requests of 0 and of 2**16..2**20 samples, queues of thousands of '
+            'reset before/twice/after completion, every leaf kind under every wrapper kind drawn / reset / drawn '
+            '(gen-reset), requests of 0 and of 2**16..2**20 samples, queues of thousands of '
             'trials, a generator built over every parameter array at the end (arguments come back unmodified).')
     exhaustive_note = {
         'quick': 'memo histories: every op word of length <= 4 over {call wrapped, call wrapper, call tuple-valued, '
@@ -2030,6 +2228,8 @@ class C10(Spec):
             yield gen_hist_case(rng)
         for k in range(4 * n):
             yield gen_scale_case(rng, k)
+        for k in range(len(RESET_LEAVES) * len(RESET_WRAPS) * (1 if tier == 'quick' else 6)):
+            yield gen_reset_case(rng, k)
 
     # The Lean model follows the fixed code (copy on return); C10_VARIANT=alias selects the model of the
     # code as originally written, to show that it reproduces the defect position by position.
@@ -2054,9 +2254,16 @@ class C10(Spec):
 
     def oracle(self, c, out):
         if out and out[0].startswith('HARNESS-EXC'):
-            return None      # an adapter problem is not a property failure (shows up as a mismatch)
+            # the history or one of its references could not be evaluated at all (the library raised where no
+            # request is refused, or did not return): a failing input of the property, never an infrastructure error
+            return 'the history could not be evaluated: ' + out[0][len('HARNESS-EXC '):][:300]
         out = out[len(self.preamble(c)):]
         for k, (op, line) in enumerate(zip(c['ops'], out)):
+            if ' RAISED ' in line:
+                return f"op {k}: {op[0]} raised {line.split(' RAISED ')[1]}"
+            if line.startswith('op raised '):
+                return (f'op {k}: {op[0]} on object {op[1]} ended in {line[10:]} (a programming error inside the library, '
+                        f'not a refused request)')
             if op[0] == 'call' and ' dirty' in line:
                 kd = c['keys'][op[1]]
                 return (f"op {k}: {kd['fn']}({kd['form']}) returned a value that differs from a fresh evaluation "
